@@ -1645,23 +1645,99 @@ func scenarioFull(name string, r *hx.Rng, G int) (jobs, ref []job, extra func(re
 			})
 		}
 	case "cliques": // AllMaximalCliques, each call with its own channel, on own and on shared graphs
-		shared := randomGraph(r, r.Range(3, 11), 1, 2)
+		// graphs: random, or K_a joined to t disjoint non-edges (2^t maximal cliques of a+t vertices, sizes across 16 / 32)
+		mk := func() *graph.DenseGraph {
+			if r.Chance(1, 2) {
+				return randomGraph(r, r.Range(2, 11), r.Range(1, 4), 5)
+			}
+			size := []int{5, 8, 15, 16, 17, 31, 32, 33}[r.Intn(8)]
+			t := r.Range(2, 5)
+			if t > size-1 {
+				t = size - 1
+			}
+			a := size - t
+			g := graph.NewDense(a+2*t, nil)
+			for i := 0; i < a+2*t; i++ {
+				for j := 0; j < i; j++ {
+					if !(j >= a && i == j+1 && (j-a)%2 == 0) { // all edges but the t pairs (a+2q, a+2q+1)
+						g.AddEdge(i, j)
+					}
+				}
+			}
+			return g
+		}
+		shared := mk()
+		render := func(cls [][]int) string {
+			all := make([]string, len(cls))
+			for i, cl := range cls {
+				cp := append([]int(nil), cl...)
+				sort.Ints(cp)
+				all[i] = fmt.Sprint(cp)
+			}
+			sort.Strings(all)
+			return strings.Join(all, "")
+		}
+		number := func(g graph.Graph) string {
+			if g.N() <= 12 {
+				return strconv.Itoa(graph.CliqueNumber(g))
+			}
+			return ""
+		}
 		for k := 0; k < G; k++ {
 			g := shared
 			if k%2 == 0 {
-				g = randomGraph(r, r.Range(2, 11), r.Range(1, 4), 5)
+				g = mk()
 			}
-			jobs = append(jobs, func() string {
+			capacity := []int{0, 1, 64}[r.Intn(3)]
+			consumer := r.Intn(3)
+			// reference: unbuffered channel, every clique copied the moment it is received
+			ref = append(ref, func() string {
 				c := make(chan []int)
 				go graph.AllMaximalCliques(g, c)
-				var all []string
+				var kept [][]int
 				for cl := range c {
-					cp := append([]int(nil), cl...)
-					sort.Ints(cp)
-					all = append(all, fmt.Sprint(cp))
+					kept = append(kept, append([]int(nil), cl...))
 				}
-				sort.Strings(all)
-				return strings.Join(all, "") + strconv.Itoa(graph.CliqueNumber(g))
+				return render(kept) + number(g)
+			})
+			jobs = append(jobs, func() string {
+				c := make(chan []int, capacity)
+				go graph.AllMaximalCliques(g, c)
+				var kept [][]int
+				switch consumer {
+				case 0: // copies at once
+					for cl := range c {
+						kept = append(kept, append([]int(nil), cl...))
+					}
+				case 1: // keeps the slices it was sent and reads them after the channel is closed
+					for cl := range c {
+						kept = append(kept, cl)
+					}
+				case 2: // hands every slice on to a second goroutine that reads it while the producer goes on
+					pass := make(chan []int, 64)
+					done := make(chan [][]int)
+					go func() {
+						var got, held [][]int
+						for cl := range pass {
+							held = append(held, cl)
+							if len(held) > 2 { // reads a clique two receipts late
+								got = append(got, append([]int(nil), held[len(held)-3]...))
+							}
+						}
+						for i := len(held) - 2; i < len(held); i++ {
+							if i >= 0 {
+								got = append(got, append([]int(nil), held[i]...))
+							}
+						}
+						done <- got
+					}()
+					for cl := range c {
+						pass <- cl
+					}
+					close(pass)
+					kept = <-done
+				}
+				return render(kept) + number(g)
 			})
 		}
 	case "sortints-shared": // non-mutating set functions on shared arguments, equal and very unequal sizes in both orders
